@@ -199,6 +199,9 @@ pub struct Conversation {
     /// shim in auto mode (no scripted actions); prepares hand out these (id, nparams), None = reject
     #[serde(default)]
     pub auto_ids: Option<Vec<Option<(u32, usize)>>>,
+    /// the shim leaks, rather than drops, a RowWriter whose row-level call was refused
+    #[serde(default)]
+    pub forget_on_refusal: bool,
 }
 
 impl Conversation {
@@ -214,6 +217,7 @@ impl Conversation {
             fault: Fault::None,
             lockstep: false,
             auto_ids: None,
+            forget_on_refusal: false,
         }
     }
 }
@@ -332,6 +336,13 @@ pub fn run(c: &Conversation) -> Outcome {
     run_with(c, None, true)
 }
 
+/// run the shim configuration of `c` over a prepared transport (the client bytes are whatever
+/// the transport holds)
+pub fn run_raw(c: &Conversation, tr: Transport) -> Outcome {
+    let inbound_len = tr.0.borrow().inbound.len();
+    run_inner(c, None, false, tr, inbound_len, vec![inbound_len])
+}
+
 pub fn run_with(c: &Conversation, tls: Option<std::sync::Arc<rustls::ServerConfig>>, convert_params: bool) -> Outcome {
     let (bytes, ends, _) = client_stream(c);
     let inbound_len = bytes.len();
@@ -341,6 +352,10 @@ pub fn run_with(c: &Conversation, tls: Option<std::sync::Arc<rustls::ServerConfi
         kinds.extend(c.cmds.iter().map(|sc| sc.cmd.reply_kind()));
         tr.0.borrow_mut().gate = Some(Box::new(LockstepGate { kinds, ends: ends.clone() }));
     }
+    run_inner(c, tls, convert_params, tr, inbound_len, ends)
+}
+
+fn run_inner(c: &Conversation, tls: Option<std::sync::Arc<rustls::ServerConfig>>, convert_params: bool, tr: Transport, inbound_len: usize, ends: Vec<usize>) -> Outcome {
     let st = Rc::new(RefCell::new(ShimState {
         actions: c.actions.iter().cloned().collect(),
         fail_at: c.fail_at,
@@ -348,6 +363,7 @@ pub fn run_with(c: &Conversation, tls: Option<std::sync::Arc<rustls::ServerConfi
         tls,
         convert_params,
         auto: c.auto_ids.is_some(),
+        forget_on_refusal: c.forget_on_refusal,
         auto_ids: c.auto_ids.clone().unwrap_or_default().into_iter().collect(),
         ..Default::default()
     }));
